@@ -3,79 +3,6 @@
 // turns back into an equal value:   theorem_relation_roundtrip: valid_rel(v) ==> read_relation_text(rel_text(v)) == Some(v)
 // over the three contracts of this unit (lexer == rel_tokens_of, reader == rd_relation, printer == rel_text).
 // ---------------------------------------------------------------------------------------------
-pub open spec fn ident_str(s: Seq<char>) -> bool { s.len() > 0 && forall|i: int| 0 <= i < s.len() ==> is_ident_s(#[trigger] s[i]) }
-/// a version: its printed text is made of name characters and ':' and parses back to it (debversion is external:
-/// this is what "valid component" means for the version)
-pub open spec fn version_ok(v: debversion::Version) -> bool {
-    let t = version_text(v);
-    &&& t.len() > 0
-    &&& forall|i: int| 0 <= i < t.len() ==> (is_ident_s(#[trigger] t[i]) || t[i] == ':')
-    &&& version_parse_spec(t) == Some(v)
-}
-/// an architecture restriction: name or !name
-pub open spec fn arch_ok(a: Seq<char>) -> bool { ident_str(a) || (a.len() > 1 && a[0] == '!' && ident_str(a.skip(1))) }
-pub open spec fn group_ok(g: Seq<ProfV>) -> bool { g.len() > 0 && forall|i: int| 0 <= i < g.len() ==> ident_str((#[trigger] g[i]).1) }
-pub open spec fn valid_rel(v: RelV) -> bool {
-    &&& ident_str(v.name)
-    &&& (v.archqual matches Some(q) ==> ident_str(q))
-    &&& (v.version matches Some(cv) ==> version_ok(cv.1))
-    &&& (v.archs matches Some(l) ==> forall|i: int| 0 <= i < l.len() ==> arch_ok(#[trigger] l[i]))
-    &&& forall|i: int| 0 <= i < v.profiles.len() ==> group_ok(#[trigger] v.profiles[i])
-}
-
-// ---- lexing building blocks -------------------------------------------------------------------------------------------
-/// what follows does not continue a name
-pub open spec fn no_ident_start(b: Seq<char>) -> bool { b.len() == 0 || !is_ident_s(b[0]) }
-pub open spec fn no_ws_start(b: Seq<char>) -> bool { b.len() == 0 || !is_ws_s(b[0]) }
-
-pub proof fn lemma_run_ident_prefix(x: Seq<char>, b: Seq<char>)
-    requires forall|i: int| 0 <= i < x.len() ==> is_ident_s(#[trigger] x[i]), no_ident_start(b)
-    ensures run_ident(x + b) == x.len()
-    decreases x.len()
-{
-    let s = x + b;
-    if x.len() == 0 {
-        assert(s =~= b);
-    } else {
-        assert(s[0] == x[0]);
-        assert(s.skip(1) =~= x.skip(1) + b);
-        assert forall|i: int| 0 <= i < x.skip(1).len() implies is_ident_s(#[trigger] x.skip(1)[i]) by { assert(x.skip(1)[i] == x[i + 1]); }
-        lemma_run_ident_prefix(x.skip(1), b);
-    }
-}
-pub proof fn lemma_lex_ident(x: Seq<char>, b: Seq<char>)
-    requires ident_str(x), no_ident_start(b)
-    ensures rel_tokens_of(x + b) == seq![(IDENT, x)] + rel_tokens_of(b)
-{
-    let s = x + b;
-    lemma_run_ident_prefix(x, b);
-    assert(s[0] == x[0]);
-    assert(is_ident_s(x[0]));
-    assert(delim_kind(s[0]) is None && !is_ws_s(s[0]));
-    assert(s.take(x.len() as int) =~= x);
-    assert(s.skip(x.len() as int) =~= b);
-}
-pub proof fn lemma_lex_delim(c: char, b: Seq<char>)
-    requires delim_kind(c) is Some
-    ensures rel_tokens_of(seq![c] + b) == seq![(delim_kind(c)->Some_0, seq![c])] + rel_tokens_of(b)
-{
-    let s = seq![c] + b;
-    assert(s[0] == c);
-    assert(s.take(1) =~= seq![c]);
-    assert(s.skip(1) =~= b);
-}
-pub proof fn lemma_lex_space(b: Seq<char>)
-    requires no_ws_start(b)
-    ensures rel_tokens_of(seq![' '] + b) == seq![(WHITESPACE, seq![' '])] + rel_tokens_of(b)
-{
-    let s = seq![' '] + b;
-    assert(s[0] == ' ');
-    assert(s.skip(1) =~= b);
-    assert(run_ws(s.skip(1)) == 0);
-    assert(run_ws(s) == 1);
-    assert(s.take(1) =~= seq![' ']);
-}
-
 pub proof fn lemma_r_ws_idem(ts: Seq<RTok>)
     ensures r_ws(r_ws(ts)) == r_ws(ts)
     decreases ts.len()
